@@ -513,6 +513,9 @@ class FiniteBifield:
         """
         # For our implementation, the element 'x' (represented by value 2 or 0b10)
         # is primitive when using the standard primitive polynomials
+        # GF(2) has no element 'x' (0b10 reduces to 0 modulo x + 1): its only generator is 1
+        if self.m == 1:
+            return self(1)
         return self(0b10)
 
     def get_all_elements(self) -> List["FiniteBifieldElement"]:
